@@ -4,6 +4,10 @@ import json, os
 HERE = os.path.dirname(os.path.abspath(__file__))
 TECH = "bounded symbolic execution of rustc MIR of /repo (mirsym, own MIR->SMT engine) decided by z3; cvc5 + z3-4.8.12 re-decide every VC in the thorough tier; counterexamples replayed natively before reporting"
 CHECKS = {
+ 'C07': dict(
+   text="Bounded model checking of one step of the real frame dispatcher (ConnectionState::process with the collector, routing and client-exception code it calls, from MIR) from every collector state of a two-channel Steady connection over a fully symbolic AMQPFrame (every arm, every channel id, every field value), against a complete outcome table (which error / client exception / Ok each (state, frame) pair must produce) and effect conditions (nothing delivered on a violation, Connection.Close with the matching hard-error code as last frame, sealed buffer, later frames ignored).",
+   note="One step per state family, not arbitrary-length sequences: longer sequences are covered only through the state families (collector states None/Start/Body per kind, ClientException). Two open channels, one consumer each; reply/consumer receivers alive; HashMap as association list, crossbeam queues, Vec<u8> lengths and amq-protocol frame generators are summaries; frame bytes themselves (parsing) are C06.",
+   ref="DESIGN.md §4 C07"),
  'C10': dict(
    text="Bounded model checking of the real ChannelSlots code from MIR: (i) every history of K symbolic open(Some id)/open(None)/close/drain operations from the fresh table for every channel_max at once, against a ghost open-set oracle; (ii) one inductive step from an arbitrary table satisfying the representation invariant (all 65536 ids as SMT arrays), which extends the claim to histories of any length; CTIs are turned into real histories and replayed.",
    note="HashMap/IndexSet summarised (association list / arrays); entry-making closure assumed to succeed; the never-used-id scan is unrolled u times (longer scans of occupied ids outside the claim); quick tier uses the overflow-checking (dev) MIR profile, thorough both profiles.",
